@@ -110,6 +110,10 @@ def name_configurable(pm, cls: ClassInfo, cache: dict) -> dict[str, object]:
 
 
 def check(chk):
+    # list items are aligned by sample LABEL when concatenated, whatever order each item stores its samples in (shared with C02's concatenator rule)
+    from . import c02 as _c02
+    from .c01 import _Relabel as _RL
+    _c02._concat_align(_RL(chk, "MIRROR.state.concat", "LAYOUT.concat"))
     pm = chk.pm
     concrete = pm.concrete_models() + pm.exported_classes("preprocessing")
     cfg_cache: dict = {}
